@@ -224,6 +224,13 @@ struct RawConn
   bool writeSegment(std::string_view seg, double timeoutSec = 20.0)
   {
     if (!writeAll(seg.data(), seg.size())) return false;
+    return awaitRead(timeoutSec);
+  }
+
+  /// the read barrier alone: wait until the endpoint has read everything written so far (counts as
+  /// one segment; used for bytes that went out through writeAll, e.g. behind the handshake)
+  bool awaitRead(double timeoutSec = 20.0)
+  {
     ++segmentsWritten;
     auto t0 = Clock::now();
     unsigned spins = 0;
@@ -312,11 +319,15 @@ inline WireFrames decodeAll(std::string_view rx)
 
 // ---------------------------------------------------------------- client role (toward a server)
 /// opening handshake as a client; on success conn.rx holds whatever followed the 101 response
-inline bool clientHandshake(RawConn &c, const std::string &key, std::string &why, std::string *responseHead = nullptr, bool *timedOut = nullptr)
+/// `extra`: bytes (frames) appended to the upgrade request in the SAME write - iora's HttpServer
+/// documents that it feeds what follows the request in the same segment to the upgraded handler
+inline bool clientHandshake(RawConn &c, const std::string &key, std::string &why, std::string *responseHead = nullptr, bool *timedOut = nullptr,
+                            const std::string &extra = std::string())
 {
   if (timedOut) *timedOut = false;
   std::string req = "GET /ws HTTP/1.1\r\nHost: 127.0.0.1\r\nUpgrade: websocket\r\nConnection: Upgrade\r\nSec-WebSocket-Key: " + key +
                     "\r\nSec-WebSocket-Version: 13\r\n\r\n";
+  req += extra;
   if (!c.writeAll(req.data(), req.size()))
   {
     why = "cannot send the upgrade request";
@@ -383,7 +394,10 @@ struct RawListener
     if (fd >= 0) ::close(fd);
   }
   /// accept one connection and answer its upgrade request; returns false with `why` otherwise
-  bool acceptAndUpgrade(RawConn &c, std::string &why, double timeoutSec = 20.0)
+  /// `tail`: bytes (frames) that go out in the SAME write as the 101 response (a server that greets
+  /// or pings immediately). `cutPermille` in 1..999: the response is cut at that fraction, the head
+  /// is written (and read by the client) first, then the rest of the response + tail in one write.
+  bool acceptAndUpgrade(RawConn &c, std::string &why, double timeoutSec = 20.0, const std::string &tail = std::string(), int cutPermille = 0)
   {
     pollfd pf{fd, POLLIN, 0};
     if (::poll(&pf, 1, static_cast<int>(timeoutSec * 1000)) <= 0)
@@ -420,7 +434,18 @@ struct RawListener
     while (!key.empty() && (key.back() == ' ' || key.back() == '\t')) key.pop_back();
     std::string resp = "HTTP/1.1 101 Switching Protocols\r\nUpgrade: websocket\r\nConnection: Upgrade\r\nSec-WebSocket-Accept: " +
                        refws::acceptFor(key) + "\r\n\r\n";
-    if (!c.writeAll(resp.data(), resp.size()))
+    const std::size_t respLen = resp.size();
+    resp += tail;
+    bool ok;
+    if (cutPermille > 0 && cutPermille < 1000)
+    {
+      std::size_t cut = std::min(respLen - 1, std::max<std::size_t>(1, respLen * static_cast<std::size_t>(cutPermille) / 1000));
+      c.peerFd = findPeerFd(c.fd);
+      ok = c.writeSegment(std::string_view(resp).substr(0, cut)) && c.writeAll(resp.data() + cut, resp.size() - cut);
+    }
+    else
+      ok = c.writeAll(resp.data(), resp.size());
+    if (!ok)
     {
       why = "cannot send the 101 response";
       return false;
